@@ -88,6 +88,19 @@ pub fn rec_sigtable(a: &Args, out: &mut Out) {
                 extra_valid.push(json!([b, c as u32]));
             }
         }
+        // characters that share their low byte (or low bits) with a recognised attribute, in the same band
+        for (b, c) in valid.clone() {
+            for k in 1..=24u32 {
+                for cand in [(c as u32) + 0x100 * k, (c as u32) + 0x10000 * k, (c as u32) | (1 << (8 + k % 12))] {
+                    if let Some(ch) = char::from_u32(cand) {
+                        probed += 1;
+                        if ch != c && is_valid_sig(g, b, ch) {
+                            extra_valid.push(json!([b, ch as u32]));
+                        }
+                    }
+                }
+            }
+        }
         // wire position of every valid descriptor
         let t = msm_templates(&mut r, num);
         let mut pos = vec![];
